@@ -282,6 +282,7 @@ def main():
     if os.path.exists(OUT):
         with open(OUT) as f:
             old = f.read()
+    os.makedirs(os.path.dirname(OUT), exist_ok=True)
     if old != text:
         with open(OUT, "w") as f:
             f.write(text)
